@@ -259,6 +259,33 @@ CONFIG = {
             "no partitions; Raft's own schedules are explored by repetition only",
         ],
     },
+    "C18": {
+        "pkg": "c18",
+        "race": True,
+        "max_procs": 8,
+        "legs": [
+            {"run": "^TestTrackerMix$", "quick": (40, 2), "thorough": (600, 4)},
+            {"run": "^TestOpTrackerMix$", "quick": (300, 2), "thorough": (6000, 4)},
+            {"run": "^TestMetricsMix$", "quick": (300, 2), "thorough": (6000, 4)},
+            {"run": "^TestWindowMix$", "quick": (400, 2), "thorough": (8000, 4)},
+            {"run": "^TestAlertsMix$", "quick": (12, 2), "thorough": (150, 4)},
+            {"run": "^TestShutdownMix$", "quick": (60, 2), "thorough": (1500, 4)},
+        ],
+        "floors": {
+            "tracker-mix": {"nontrivial": 20},
+            "optracker-mix": {"nontrivial": 100},
+            "metrics-mix": {"nontrivial": 100},
+            "window-mix": {"nontrivial": 100},
+            "alerts-mix": {"nontrivial": 6},
+            "shutdown-mix": {"nontrivial": 20, "component:disk": 3, "component:numpin": 3, "component:crdt": 3, "component:cluster": 3, "component:cluster-boot": 3, "component:tracker": 3},
+        },
+        "assumptions": [
+            QUIC,
+            "test binary built with -race; a race report, a panic in any goroutine, or workers not finishing within a 60 s watchdog is a violation",
+            "schedules are explored by repetition under the Go scheduler with drawn GOMAXPROCS and yields, not enumerated; a race the scheduler never exercises is not seen",
+            "the Cluster is wired to harness fakes (consensus, monitor, informer, IPFS connector) so only cluster.go's own synchronisation is exercised there; the tracker, operation tracker, metrics store/window/checker, informers and CRDT consensus are the real ones",
+        ],
+    },
     "C08": {
         "pkg": "c08",
         "regress": "^TestRegress",
